@@ -137,12 +137,46 @@ def run(tier):
                                   'request': rid, 'gw': r['gw'], 'kind': 'gateway'})
                     break
     ck.cov['requests_checked_for_gateway_form'] = nreq
+    upgrade_header_alone(ck)
     ck.cov['rule'] = ('case = one environment script (session histories interleaved with requests '
                       'that must be refused, malformed bodies, API calls) on one implementation; at '
                       'the end the clock runs I+3T+2 past the last input and nothing may be blocked')
     ck.assume('upgrade (websocket-type) requests are excluded from the completion requirement, as in '
               'the statement; their gateway event order is still checked')
     return ck.finish()
+
+
+def upgrade_header_alone(ck):
+    """GET ?transport=websocket without a sid, with an Upgrade header that no Connection header
+    names: by HTTP's rules not an upgrade request, so it must be answered like any other request.
+    (Outside the scripts because its effect - a session - is not part of EioServer's refusals.)"""
+    from ..harness import world as W
+    from ..harness.driver import summarize
+    opn, _ = load_known_findings('C15')
+    listed = {e['id']: e for e in opn}
+    n = 0
+    for impl in ('sync', 'async'):
+        for hdrs in ({'Upgrade': 'websocket'}, {'Upgrade': 'websocket', 'Connection': 'keep-alive'},
+                     {'Upgrade': 'WebSocket', 'Connection': 'close'}):
+            w = W.make_world(impl, {'ping_interval': 8, 'ping_timeout': 4})
+            try:
+                rid = w.http('GET', 'transport=websocket&EIO=4', headers=hdrs)
+                w.quiesce()
+                sm = summarize(w.reqs[rid])
+                bad = gateway_violation(impl, sm)
+                if not bad and not sm['done']:
+                    bad = 'request never completed'
+                n += 1
+                if bad:
+                    if 'F26' in listed:
+                        ck.known_finding('F26', listed['F26']['what'])
+                    else:
+                        ck.violation('Upgrade header without Connection: upgrade on an open: %s (%s)'
+                                     % (bad, impl), {'impl': impl, 'headers': hdrs, 'gw': sm['gw'],
+                                                     'kind': 'gateway'})
+            finally:
+                w.close()
+    ck.cov['upgrade_header_alone_probes'] = n
 
 
 def c15_scripts(seed, n, w):
